@@ -653,7 +653,7 @@ package graphql
 //@   at[C01] call andPredicates#3: assert arg0 == containerPred && arg1 == lastresult("andPredicates")
 //@   at[C01] call append#2: assert arg0 == sp.fields[keyed[responseKey]].astPredicates && arg1 == occurrencePred && occurrencePred == lastresult("andPredicates")
 //@   at[C01] call orPredicates: assert arg0 == sp.fields[keyed[responseKey]].skipPredicate && arg1 == occurrencePred
-//@   loop 1 ensures[C01] typeis(iSelection, "*ast.Field") && calls("getFieldDef") == atloop(1, calls("getFieldDef")) && calls("andPredicates") > atloop(1, calls("andPredicates")) ==> calls("orPredicates") == atloop(1, calls("orPredicates")) + 1 && calls("append") == atloop(1, calls("append")) + 2
+//@   loop[C01] 1 ensures typeis(iSelection, "*ast.Field") && calls("getFieldDef") == atloop(1, calls("getFieldDef")) && calls("andPredicates") > atloop(1, calls("andPredicates")) ==> calls("orPredicates") == atloop(1, calls("orPredicates")) + 1 && calls("append") == atloop(1, calls("append")) + 2
 // enclosing conditions are threaded through inline fragments and (as the gate) through named fragments
 //@   at[C01] call andPredicates#5: assert arg0 == parentPred && arg1 == pred
 //@   at[C01] call collectInto#1: assert arg6 == lastresult("andPredicates") && arg7 == container
@@ -661,7 +661,7 @@ package graphql
 //@   at[C01] call collectInto#2: assert arg6 == nil && (arg7 == nil <==> (container == nil && spreadPred == nil))
 //@   at[C01] call add: assert arg1 == container && arg2 == spreadPred
 // a fragment that was already collected under a gate is widened by every later spread
-//@   loop 1 ensures[C01] typeis(iSelection, "*ast.FragmentSpread") && calls("collectInto") == atloop(1, calls("collectInto")) && calls("andPredicates") > atloop(1, calls("andPredicates")) && as(iSelection, "*ast.FragmentSpread").Name != nil && atloop(1, visitedFragmentNames[as(iSelection, "*ast.FragmentSpread").Name.Value]) && atloop(1, sp.fragmentGates[as(iSelection, "*ast.FragmentSpread").Name.Value] != nil) ==> calls("add") == atloop(1, calls("add")) + 1
+//@   loop[C01] 1 ensures typeis(iSelection, "*ast.FragmentSpread") && calls("collectInto") == atloop(1, calls("collectInto")) && calls("andPredicates") > atloop(1, calls("andPredicates")) && as(iSelection, "*ast.FragmentSpread").Name != nil && atloop(1, visitedFragmentNames[as(iSelection, "*ast.FragmentSpread").Name.Value]) && atloop(1, sp.fragmentGates[as(iSelection, "*ast.FragmentSpread").Name.Value] != nil) ==> calls("add") == atloop(1, calls("add")) + 1
 
 // The combinators: nil is the constant-true predicate.
 //@ func andPredicates
